@@ -170,7 +170,6 @@ End CandOrder.
 (** * Witnesses (cand := positive), computed *)
 
 Module C08Witness.
-Open Scope positive_scope.
 
 Definition rb (r : list positive) (w : Q) : ballot positive :=
   mkBallot (map (fun c => [c]) r) w [] None None.
@@ -179,8 +178,8 @@ Definition fresh : mstate positive := mkM [] [].
 
 (* ---- PluralityVeto: the same two voters in the other order, the same script (the voter at
    index 0 vetoes first): the other candidate wins ---- *)
-Definition pv_p : profile positive := mkProfile [rb [1;2] 1; rb [2;1] 1] [1;2].
-Definition pv_p' : profile positive := mkProfile [rb [2;1] 1; rb [1;2] 1] [1;2].
+Definition pv_p : profile positive := mkProfile [rb [1;2]%positive 1; rb [2;1]%positive 1] [1;2]%positive.
+Definition pv_p' : profile positive := mkProfile [rb [2;1]%positive 1; rb [1;2]%positive 1] [1;2]%positive.
 Definition pv_s : mstate positive := mkM [DIdxs [0%nat; 1%nat]] [].
 
 Lemma pv_order_dependent :
@@ -189,8 +188,8 @@ Lemma pv_order_dependent :
     run_pv positive Pos.eqb 1 None pv_p pv_s = inl ([a0; a1; a2], s1) /\
     run_pv positive Pos.eqb 1 None pv_p' pv_s = inl ([b0; b1; b2], s1) /\
     escores a0 = escores b0 /\
-    eliminated a1 = [[2]] /\ elected a2 = [[1]] /\
-    eliminated b1 = [[1]] /\ elected b2 = [[2]].
+    eliminated a1 = [[2%positive]] /\ elected a2 = [[1%positive]] /\
+    eliminated b1 = [[1%positive]] /\ elected b2 = [[2%positive]].
 Proof.
   split; [apply perm_swap|]. split; [reflexivity|].
   eexists. eexists. eexists. eexists. eexists. eexists. eexists. vm_compute. repeat split.
@@ -203,8 +202,8 @@ Lemma pv_order_with_script :
 Proof. vm_compute. reflexivity. Qed.
 
 (* ---- PluralityVeto: a ballot of weight 1 split into two halves is rejected ---- *)
-Definition pv_q : profile positive := mkProfile [rb [1;2] 1] [1;2].
-Definition pv_q' : profile positive := mkProfile [rb [1;2] (1#2); rb [1;2] (1#2)] [1;2].
+Definition pv_q : profile positive := mkProfile [rb [1;2]%positive 1] [1;2]%positive.
+Definition pv_q' : profile positive := mkProfile [rb [1;2]%positive (1#2); rb [1;2]%positive (1#2)] [1;2]%positive.
 
 Lemma pv_split_rejected :
   profile_equiv positive Pos.eqb pv_q pv_q' /\
@@ -213,7 +212,7 @@ Lemma pv_split_rejected :
 Proof.
   split; [|split].
   - split; [|apply Permutation_refl].
-    apply (dist_eq_split positive Pos.eqb Pos.eqb_spec [] (rb [1;2] 1) [] [rb [1;2] (1#2); rb [1;2] (1#2)]).
+    apply (dist_eq_split positive Pos.eqb Pos.eqb_spec [] (rb [1;2]%positive 1) [] [rb [1;2]%positive (1#2); rb [1;2]%positive (1#2)]).
     + repeat constructor.
     + vm_compute. reflexivity.
   - eexists. eexists. vm_compute. reflexivity.
@@ -221,8 +220,8 @@ Proof.
 Qed.
 
 (* ---- rating family: an invalid rating carried by a ballot of weight zero ---- *)
-Definition rt_p : profile positive := mkProfile [sb [(1, 1)] 2; sb [(2, 5)] 0] [1;2].
-Definition rt_p' : profile positive := mkProfile [sb [(1, 1)] 2] [1;2].
+Definition rt_p : profile positive := mkProfile [sb [(1%positive, 1)] 2; sb [(2%positive, 5)] 0] [1;2]%positive.
+Definition rt_p' : profile positive := mkProfile [sb [(1%positive, 1)] 2] [1;2]%positive.
 
 Lemma drop_zero_equiv : forall (b z : ballot positive) cs, wt z == 0 ->
   profile_equiv positive Pos.eqb (mkProfile [b; z] cs) (mkProfile [b] cs).
@@ -232,8 +231,8 @@ Proof.
     destruct (same_content positive Pos.eqb k b); rewrite ?Hz; ring.
 Qed.
 
-Lemma rated_dom : forall bs, Forall (fun b => exists c q w, b = sb [(c, q)] w /\ In c [1;2] /\ 0 <= w) bs ->
-  one_shot_domain positive SKBallotScores (mkProfile bs [1;2]).
+Lemma rated_dom : forall bs, Forall (fun b => exists c q w, b = sb [(c, q)] w /\ In c [1;2]%positive /\ 0 <= w) bs ->
+  one_shot_domain positive SKBallotScores (mkProfile bs [1;2]%positive).
 Proof.
   intros bs H. rewrite Forall_forall in H. split; [|split]; cbn [ballots cands].
   - apply Forall_forall. intros b Hb. destruct (H b Hb) as [c [q [w [-> [_ Hw]]]]]. exact Hw.
@@ -251,16 +250,16 @@ Lemma rating_zero_weight :
 Proof.
   split; [apply drop_zero_equiv; reflexivity|]. split; [|split; [|split]].
   - apply rated_dom. repeat constructor.
-    + exists 1, 1, 2. repeat split; [left; reflexivity|discriminate].
-    + exists 2, 5, 0. repeat split; [right; left; reflexivity|discriminate].
-  - apply rated_dom. repeat constructor. exists 1, 1, 2. repeat split; [left; reflexivity|discriminate].
+    + exists 1%positive, 1, 2. repeat split; [left; reflexivity|discriminate].
+    + exists 2%positive, 5, 0. repeat split; [right; left; reflexivity|discriminate].
+  - apply rated_dom. repeat constructor. exists 1%positive, 1, 2. repeat split; [left; reflexivity|discriminate].
   - vm_compute. reflexivity.
   - eexists. vm_compute. reflexivity.
 Qed.
 
 (* ---- RandomDictator: no ballots vs one ballot of weight zero ---- *)
-Definition rd_p : profile positive := mkProfile [] [1;2].
-Definition rd_p' : profile positive := mkProfile [rb [1;2] 0] [1;2].
+Definition rd_p : profile positive := mkProfile [] [1;2]%positive.
+Definition rd_p' : profile positive := mkProfile [rb [1;2]%positive 0] [1;2]%positive.
 
 Lemma dictator_zero_weight :
   profile_equiv positive Pos.eqb rd_p rd_p' /\
@@ -270,15 +269,52 @@ Lemma dictator_zero_weight :
 Proof.
   split; [|split; [|split; [|split]]].
   - split; [|apply Permutation_refl]. cbn [ballots rd_p rd_p']. intros k.
-    rewrite wtof_cons, !wtof_nil. destruct (same_content positive Pos.eqb k (rb [1; 2] 0)); reflexivity.
+    rewrite wtof_cons, !wtof_nil. destruct (same_content positive Pos.eqb k (rb [1; 2]%positive 0)); reflexivity.
   - split; [constructor|]. split; [split; [repeat constructor; cbn; intuition discriminate|constructor]|constructor].
-  - split; [repeat constructor; discriminate|]. split; [split|].
+  - split; [constructor; [cbn [wt rb]; lra|constructor]|]. split; [split|].
     + repeat constructor; cbn; intuition discriminate.
-    + repeat constructor; cbn; try discriminate; try (intuition discriminate).
-      intros x [<-|[<-|[]]]; cbn; tauto.
+    + constructor; [|constructor]. cbn [rk rb map ballots cands rd_p'].
+      split; [discriminate|]. split; [repeat constructor; discriminate|]. split.
+      * cbn. repeat constructor; cbn; intuition discriminate.
+      * cbn. intros x Hx. exact Hx.
     + repeat constructor.
   - vm_compute. reflexivity.
   - vm_compute. reflexivity.
 Qed.
+
+(* ---- the same, as closed existential statements ---- *)
+Lemma pv_order_dependent_ex :
+  exists (p p' : profile positive) (s : mstate positive),
+    Permutation (ballots p) (ballots p') /\ cands p = cands p' /\
+    exists a0 a1 a2 b0 b1 b2 s1,
+      run_pv positive Pos.eqb 1 None p s = inl ([a0; a1; a2], s1) /\
+      run_pv positive Pos.eqb 1 None p' s = inl ([b0; b1; b2], s1) /\
+      escores a0 = escores b0 /\
+      eliminated a1 = [[2%positive]] /\ elected a2 = [[1%positive]] /\
+      eliminated b1 = [[1%positive]] /\ elected b2 = [[2%positive]].
+Proof. exists pv_p, pv_p', pv_s. exact pv_order_dependent. Qed.
+
+Lemma pv_split_rejected_ex :
+  exists (p p' : profile positive) (s : mstate positive),
+    profile_equiv positive Pos.eqb p p' /\
+    (exists sts s1, run_pv positive Pos.eqb 1 None p s = inl (sts, s1)) /\
+    run_pv positive Pos.eqb 1 None p' s = inr EType.
+Proof. exists pv_q, pv_q', (mkM [DIdxs [0%nat]] []). exact pv_split_rejected. Qed.
+
+Lemma rating_zero_weight_ex :
+  exists (p p' : profile positive) (s : mstate positive),
+    profile_equiv positive Pos.eqb p p' /\
+    one_shot_domain positive SKBallotScores p /\ one_shot_domain positive SKBallotScores p' /\
+    run_rule positive Pos.eqb (RRating 1 1 None None) p s = inr EType /\
+    exists sts, run_rule positive Pos.eqb (RRating 1 1 None None) p' s = inl (sts, s).
+Proof. exists rt_p, rt_p', fresh. exact rating_zero_weight. Qed.
+
+Lemma dictator_zero_weight_ex :
+  exists (p p' : profile positive) (s : mstate positive),
+    profile_equiv positive Pos.eqb p p' /\
+    one_shot_domain positive SKFpv p /\ one_shot_domain positive SKFpv p' /\
+    run_rule positive Pos.eqb (RRandomDictator 1) p s = inr EIndex /\
+    run_rule positive Pos.eqb (RRandomDictator 1) p' s = inr EValue.
+Proof. exists rd_p, rd_p', fresh. exact dictator_zero_weight. Qed.
 
 End C08Witness.
